@@ -124,11 +124,11 @@ Definition npullup (bare : bool) (chain : list (list nspec)) : pres :=
    flags included) every further computed operand `tmp` goes through
        if(tmp->empty_constraint) { flags only } else _range_merge_in(range, tmp)
    `merge` is the merge function: Crange.range_merge_in for the code as it is. *)
-Definition flags_only (range tmp : range) : range :=
-  mkRange (r_left range) (r_right range) (r_elems range) (r_ext range || r_ext tmp) (r_empty range)
-          (r_notPER range) (r_notOER range || r_notOER tmp) (r_incompat range).
-Definition uni_step (merge : range -> range -> range) (range tmp : range) : range :=
-  if r_empty tmp then flags_only range tmp else merge range tmp.
+Definition flags_only (acc tmp : range) : range :=
+  mkRange (r_left acc) (r_right acc) (r_elems acc) (r_ext acc || r_ext tmp) (r_empty acc)
+          (r_notPER acc) (r_notOER acc || r_notOER tmp) (r_incompat acc).
+Definition uni_step (merge : range -> range -> range) (acc tmp : range) : range :=
+  if r_empty tmp then flags_only acc tmp else merge acc tmp.
 Definition uni_fold (merge : range -> range -> range) (first : range) (rest : list range) : range :=
   fold_left (uni_step merge) rest first.
 (* the variant in which _range_merge_in does not carry the operand's marker over *)
